@@ -28,6 +28,7 @@ mod fanout;
 mod keepalive;
 mod reqrep;
 mod server;
+mod shutdown;
 
 pub fn arg(args: &[String], name: &str) -> Option<String> {
     args.iter().position(|a| a == name).and_then(|i| args.get(i + 1).cloned())
@@ -409,6 +410,7 @@ fn main() {
             Some("stall") => server::cmd_stall(args.clone()).await,
             Some("tls") => server::cmd_tls(args.clone()).await,
             Some("fanout") => fanout::cmd_fanout(args.clone()).await,
+            Some("shutdown") => shutdown::cmd_shutdown(args.clone()).await,
             Some("keepalive") => keepalive::cmd_keepalive(args.clone()).await,
             _ => Err(anyhow!("usage: e2e pubsub|reqrep|server|stall|tls|keepalive --out T ...")),
         }
